@@ -51,7 +51,7 @@ def lazy_vs_eager(chk: core.Check, thorough: bool):
             keep = [n for n in names if "Digi" not in n]
             idx = sorted(rng.choice(len(keep), size=min(6, len(keep)), replace=False))
             # every digi collection (incl. those never written in the file: element type unknown) + a sample of the others
-            names = sorted(set([keep[i] for i in idx] + [n for n in names if "Digi" in n or "mdcTrackCol" in n or "emcTrackCol" in n]))
+            names = sorted(set([keep[i] for i in idx] + [n for n in names if "Digi" in n or "mdcTrackCol" in n or "emcTrackCol" in n or "CgemClusterCol" in n]))
         # one process reads branches with different matrix sizes one after the other (state must not leak between them)
         for name in names:
             short = name.split("/")[-1]
@@ -64,7 +64,14 @@ def lazy_vs_eager(chk: core.Check, thorough: bool):
                 try:
                     d = uproot.dask({str(p): "Event/" + name}, steps_per_file=steps)
                 except NotImplementedError as ex:
+                    # a BES3 collection branch that cannot be read lazily at all: the property's quantifier is "every BES3 collection
+                    # branch", so this is a failure of the property; the one recorded call site is matched through finding_key
                     unsupported.append(f"{fn}:{name}: {ex}")
+                    fk = {"key": "cgem-cluster-col-no-lazy-form"} if (short == "m_recCgemClusterCol" and "Bes3CgemClusterColFactory" in str(ex)) else None
+                    chk.failing_input("uproot.dask(...) on a BES3 collection branch", {"file": fn, "branch": name, "steps_per_file": steps}, f"NotImplementedError: {str(ex)[:300]}", {"eager_type": str(eager.type)[:300]},
+                                      "for every BES3 collection branch the lazily read array exists and equals the eager one", finding_key=fk)
+                    if fk is None:
+                        return
                     break
                 except Exception as ex:
                     chk.failing_input("uproot.dask(...) construction", {"file": fn, "branch": name, "steps_per_file": steps}, f"{type(ex).__name__}: {str(ex)[:300]}", "a lazy array", "collection branches that support lazy reading can be opened lazily")
@@ -114,7 +121,16 @@ def lazy_vs_eager(chk: core.Check, thorough: bool):
                 d = uproot.dask({str(p): "Event/" + grp}, filter_name=cols, steps_per_file=2)
             except NotImplementedError as ex:
                 unsupported.append(f"{fn}:{grp}: {ex}")
-                continue
+                if "m_recCgemClusterCol" in cols and "Bes3CgemClusterColFactory" in str(ex):
+                    # recorded finding (reported above for the branch itself); the other columns of the group are still checked
+                    members = [m for m in members if not m.endswith("m_recCgemClusterCol")]
+                    cols = [c for c in cols if c != "m_recCgemClusterCol"]
+                    if len(cols) < 2:
+                        continue
+                    d = uproot.dask({str(p): "Event/" + grp}, filter_name=cols, steps_per_file=2)
+                else:
+                    chk.failing_input("uproot.dask(...) on an event group", {"file": fn, "group": grp, "columns": cols}, f"NotImplementedError: {str(ex)[:300]}", "a lazy array", "collection branches can be read lazily")
+                    return
             for m in members + extra:
                 pick = m.split("/")[-1]
                 with uproot.open(p) as f:
@@ -212,7 +228,7 @@ def main(chk: core.Check) -> int:
                                    "steps_per_file x projections, comparing announced / computed / eager types and values.")
     chk.coverage["rule"] = "evaluations = (file, branch, steps_per_file) lazy reads compared with eager reads + factory form/content probes"
     chk.assumptions += ["dask graph construction and uproot's positional form-to-buffer mapping are third-party and outside the model",
-                        "branches whose factory has no form (Bes3CgemClusterColFactory) do not support lazy reading and are outside the property's quantifier"]
+                        "m_recCgemClusterCol cannot be read lazily (Bes3CgemClusterColFactory.make_awkward_form raises NotImplementedError): recorded finding, reproduced on every run"]
     chk.prove()
     try:
         digi_fields = lazy_vs_eager(chk, thorough) or []
